@@ -22,6 +22,9 @@ FIXED = [
     ["10 CLS:SOUND 1,2", "20 A$=INKEY$:IF A$=\"\" THEN 20"],
     ["10 REM ONLY A COMMENT"],
     ["10 Z=JOYSTK(0):HBUFF 1,10"],
+    ["12000 CLS 3", "12010 GOTO 12000"],                              # labels of five digits, kept and filtered
+    ["10000 PLAY \"C\"", "20000 SOUND 1,2:GOTO 10000", "32000 HSCREEN 2", "32699 Z$=STRING$(2,\"A\")"],
+    ["0 HCLS 1", "1 LOCATE 1,2", "99 WIDTH 40:GOTO 0"],
 ]
 
 
